@@ -69,6 +69,7 @@ structure LSt where
   pendClone : Option (Nat × Nat) := none          -- outer clone `(new, src)` whose inner clone has not happened yet
   opened    : Option (Nat × Nat) := none          -- outer `call o tag` being served: instance not yet taken / called
   lastReady : Option Nat := none                  -- inner instance whose `poll_ready` has just returned ready
+  lastCall  : Option (Nat × Nat) := none          -- `(o, tag)` of the direct inner call just made for outer instance `o`
   nO        : Nat := 1                            -- number of outer instances so far
   nI        : Nat := 1                            -- number of inner instances so far
 
@@ -78,23 +79,25 @@ inductive LIn
   | inner (e : Ev)
 deriving DecidableEq, Repr
 
-/-- the layer value is cloned: its inner service will be cloned next -/
+/-- the layer value is cloned: its inner service will be cloned next. (Any outer event means the previous
+`call()` has returned: an outer call the layer answered without calling its inner service — a cache hit, a
+coalesced waiter — is simply closed.) -/
 def outerClone (s : LSt) (src new : Nat) : Option LSt :=
-  if s.opened = none ∧ s.pendClone = none ∧ (s.cur src).isSome ∧ s.cur new = none ∧ new = s.nO then
-    some { s with pendClone := some (new, src), lastReady := none, nO := s.nO + 1 }
+  if s.pendClone = none ∧ (s.cur src).isSome ∧ s.cur new = none ∧ new = s.nO then
+    some { s with pendClone := some (new, src), opened := none, lastReady := none, lastCall := none, nO := s.nO + 1 }
   else none
 
 /-- `poll_ready` is forwarded: it returns ready only when the held inner instance just did -/
 def outerPoll (s : LSt) (o : Nat) (r : PollRes) : Option LSt :=
-  if s.opened = none ∧ s.pendClone = none then
+  if s.pendClone = none then
     match s.cur o with
-    | some i => if r = .ready → s.lastReady = some i then some { s with lastReady := none } else none
+    | some i => if r = .ready → s.lastReady = some i then some { s with opened := none, lastReady := none, lastCall := none } else none
     | none => none
   else none
 
 def outerCall (s : LSt) (o tag : Nat) : Option LSt :=
-  if s.opened = none ∧ s.pendClone = none ∧ (s.cur o).isSome then
-    some { s with opened := some (o, tag), lastReady := none }
+  if s.pendClone = none ∧ (s.cur o).isSome then
+    some { s with opened := some (o, tag), lastReady := none, lastCall := none }
   else none
 
 def innerCloneCore (s : LSt) (src new : Nat) : Option LSt :=
@@ -115,7 +118,15 @@ def innerCloneCore (s : LSt) (src new : Nat) : Option LSt :=
         -- a clone of an instance a request owns (hedge template / hedged attempt): never polled yet
         match s.owned src with
         | some ow => some { s with owned := upd s.owned new (some { tag := ow.tag, armed := false }), lastReady := none }
-        | none => none
+        | none =>
+          -- a spare clone of the held instance, taken right after serving a call on it (reconnect keeps one for its
+          -- retries): it belongs to that request and has never been polled
+          match s.lastCall with
+          | some (o, tag) =>
+              if s.cur o = some src then
+                some { s with owned := upd s.owned new (some { tag := tag, armed := false }), lastReady := none, lastCall := none }
+              else none
+          | none => none
 
 /-- the layer clones an inner instance; the clone is the next inner instance -/
 def innerClone (s : LSt) (src new : Nat) : Option LSt :=
@@ -133,7 +144,7 @@ def innerCall (s : LSt) (i tag : Nat) : Option LSt :=
   match s.opened with
   | some (o, t) =>
       -- the layer calls `self.inner` itself, synchronously in `call()`
-      if s.cur o = some i ∧ t = tag then some { s with opened := none, lastReady := none } else none
+      if s.cur o = some i ∧ t = tag then some { s with opened := none, lastReady := none, lastCall := some (o, tag) } else none
   | none =>
       match s.owned i with
       | some ow => if ow.armed = true ∧ ow.tag = tag then
